@@ -42,6 +42,6 @@ structure DId (s : Nat) (st : Stream) (cl : Client) : Prop where
 
 /-- `DId` under the premises of `DUseP`, for frames of positive size -/
 def DIdP (s : Nat) (st : Stream) (cl : Client) : Prop :=
-  st.cam.failAt = none → st.cam.emptyEvery = 0 → cl.misused = false → 0 < st.F → DId s st cl
+  st.cam.emptyEvery = 0 → cl.misused = false → 0 < st.F → DId s st cl
 
 end AcqVerif.Runtime
